@@ -26,6 +26,19 @@ const LITERALS: &[&str] = &[
   "ß", "😀", "😁", "𝒜", "\u{200d}", "\u{2028}", "\n", "\t", "\0", "]", "}", "{",
 ];
 
+/// the two identifier range tables of src/js_regex/unicode.rs as the translator restored them from the source
+fn id_table(name: &str) -> &'static Vec<u32> {
+  use std::sync::OnceLock;
+  static START: OnceLock<Vec<u32>> = OnceLock::new();
+  static CONT: OnceLock<Vec<u32>> = OnceLock::new();
+  let load = |n: &str| -> Vec<u32> { std::fs::read_to_string(format!("/verif/build/corpus/{}.json", n)).ok().and_then(|s| serde_json::from_str(&s).ok()).unwrap_or_default() };
+  if name == "largeIdStartRanges" {
+    START.get_or_init(|| load(name))
+  } else {
+    CONT.get_or_init(|| load(name))
+  }
+}
+
 struct PG<'a> {
   rng: &'a mut Rng,
   u: bool,
@@ -131,6 +144,41 @@ impl<'a> PG<'a> {
     if self.rng.chance(1, 12) {
       self.feat("bad-group-name");
       return self.rng.pick(BAD_NAMES).to_string();
+    }
+    if self.rng.chance(1, 5) {
+      // a code point at (or just outside) an end of a range of the identifier tables of the validator: the first and
+      // the last range as often as all the others together
+      let (tab, cont) = if self.rng.chance(1, 2) { (id_table("largeIdStartRanges"), false) } else { (id_table("largeIdContinueRanges"), true) };
+      if tab.len() >= 2 {
+        let pairs = tab.len() / 2;
+        let i = match self.rng.below(4) {
+          0 => 0,
+          1 => pairs - 1,
+          _ => self.rng.below(pairs),
+        };
+        let (lo, hi) = (tab[2 * i], tab[2 * i + 1]);
+        let cp = match self.rng.below(6) {
+          0 => lo,
+          1 => hi,
+          2 => lo.saturating_sub(1),
+          3 => hi + 1,
+          4 => (lo + hi) / 2,
+          _ => lo + 1,
+        };
+        if let Some(c) = char::from_u32(cp) {
+          self.feat("table-boundary-group-name");
+          let written = match self.rng.below(3) {
+            0 => c.to_string(),
+            1 => format!("\\u{{{:x}}}", cp),
+            _ if cp > 0xffff => {
+              let v = cp - 0x10000;
+              format!("\\u{:04X}\\u{:04X}", 0xd800 + (v >> 10), 0xdc00 + (v & 0x3ff))
+            }
+            _ => format!("\\u{:04x}", cp),
+          };
+          return if cont || self.rng.chance(1, 3) { format!("a{}", written) } else { written };
+        }
+      }
     }
     let n = self.rng.pick(NAME_POOL).to_string();
     if !n.is_ascii() {
